@@ -11,7 +11,7 @@ import warnings
 import numpy as np
 from scipy.special import gamma, kv
 
-from harness import core
+from harness import core, gens
 
 # consecutive entries 1-2 share geometry and L0 but not r0; entry 3 has a stencil longer than the outer scale
 PARAMS = [(0.5, 0.2, 20.0), (0.5, 0.05, 20.0), (0.5, 0.2, 3.0), (0.1, 0.15, 50.0), (0.05, 0.1, 10.0), (0.005, 0.1, 200.0), (0.02, 0.15, 1000.0),
@@ -19,18 +19,31 @@ PARAMS = [(0.5, 0.2, 20.0), (0.5, 0.05, 20.0), (0.5, 0.2, 3.0), (0.1, 0.15, 50.0
           (1, 0.3, 20.0), (2, 0.5, 30.0)]   # (pixel scale, r0, L0); the last two: very weak turbulence (pixel/r0 1e-5, 1e-6); then a pixel scale given as a Python int
 
 
-class ScriptedGenerator(np.random.Generator):
-    """a Generator whose normal() hands out scripted vectors when some are queued (random_seed accepts a Generator)"""
+class ScriptedGenerator(gens.HarnessGenerator):
+    """a Generator whose normal() hands out scripted vectors when some are queued (random_seed accepts a Generator); child
+    streams spawned from it share the script"""
 
     def __init__(self, seed):
-        super().__init__(np.random.PCG64(seed))
-        self.script = []
+        super().__init__(seed, script=[])
+
+    @property
+    def script(self):
+        return self.sh.script
+
+    @script.setter
+    def script(self, v):
+        self.sh.script = v
 
     def normal(self, loc=0.0, scale=1.0, size=None):
-        if self.script:
-            v = np.asarray(self.script.pop(0), float)
+        if self.sh.script:
+            v = np.asarray(self.sh.script.pop(0), float)
             return loc + scale * v
         return super().normal(loc, scale, size)
+
+    def standard_normal(self, size=None, *a, **k):
+        if self.sh.script and not a and not k:
+            return np.asarray(self.sh.script.pop(0), float)
+        return super().standard_normal(size, *a, **k)
 
 
 class NotScriptable(Exception):
